@@ -58,6 +58,7 @@ class Share:
         self._dyhb_rtt = dyhb_rtt
         # self._alive becomes False upon fatal corruption or server error
         self._alive = True
+        self._fail_reason = None # the Failure given to self._fail()
         self._loop_scheduled = False
         self._lp = log.msg(format="%(share)s created", share=repr(self),
                            level=log.NOISY, parent=logparent, umid="P7hv2w")
@@ -164,6 +165,12 @@ class Share:
         assert segnum >= 0
         o = EventStreamObserver()
         o.set_canceler(self, "_cancel_block_request")
+        if not self._alive:
+            # This share has already been abandoned (self._fail), so loop()
+            # will never look at a new request: answer it here, or the
+            # SegmentFetcher would wait for this block forever.
+            o.notify(state=DEAD, f=self._fail_reason)
+            return o
         for i,(segnum0,observers) in enumerate(self._requested_blocks):
             if segnum0 == segnum:
                 observers.add(o)
@@ -836,6 +843,7 @@ class Share:
                 share=repr(self), failure=f,
                 level=level, parent=self._lp, umid="JKM2Og")
         self._alive = False
+        self._fail_reason = f
         for (segnum, observers) in self._requested_blocks:
             for o in observers:
                 o.notify(state=DEAD, f=f)
